@@ -1,4 +1,5 @@
 #!/bin/bash
+export VERIF_EVIDENCE_DIR=/verif/build/evidence_scratch
 # usage: seed_eval.sh <worktree-id e.g. C04> <seed-name> <prop> [<prop>...]
 # confirms a seeded change in its scratch worktree, stores it under /verif/seeded/<seed-name>, runs the checks against /repo with it applied
 set -u
